@@ -1,19 +1,446 @@
 package main
 
 import (
+	"encoding/json"
+	"flag"
 	"fmt"
-	"golang.org/x/tools/go/packages"
-	"golang.org/x/tools/go/ssa"
-	"golang.org/x/tools/go/ssa/ssautil"
+	"os"
+	"path/filepath"
+	"sort"
+	"strconv"
+	"strings"
+	"sync"
+	"time"
 )
 
-func main() {
-	cfg := &packages.Config{Mode: packages.LoadAllSyntax, Dir: "/repo", BuildFlags: []string{"-tags=verif"}}
-	pkgs, err := packages.Load(cfg, "./p9")
+var verifDir = "/verif"
+
+type oblResult struct {
+	Func string
+	O    *Obligation
+	R    SolveResult
+	Ctx  *Ctx
+	Full string // full name: <func>/<obligation>
+}
+
+type finding struct {
+	Prop, Obligation, What string
+	Fixed                  bool
+}
+
+func loadFindings(path string) []finding {
+	var out []finding
+	b, err := os.ReadFile(path)
 	if err != nil {
-		panic(err)
+		return nil
 	}
-	prog, _ := ssautil.AllPackages(pkgs, ssa.BuilderMode(0))
-	prog.Build()
-	fmt.Println(len(pkgs))
+	for _, ln := range strings.Split(string(b), "\n") {
+		ln = strings.TrimSpace(ln)
+		if ln == "" || strings.HasPrefix(ln, "#") {
+			continue
+		}
+		f := finding{}
+		if strings.HasPrefix(ln, "fixed:") {
+			f.Fixed = true
+		} else if !strings.HasPrefix(ln, "finding:") {
+			continue
+		}
+		rest := ln[strings.IndexByte(ln, ':')+1:]
+		what := ""
+		if i := strings.Index(rest, " -- "); i >= 0 {
+			what = strings.TrimSpace(rest[i+4:])
+			rest = rest[:i]
+		}
+		for _, tok := range strings.Fields(rest) {
+			if strings.HasPrefix(tok, "property=") {
+				f.Prop = tok[9:]
+			} else if strings.HasPrefix(tok, "obligation=") {
+				f.Obligation = tok[11:]
+			}
+		}
+		f.What = what
+		out = append(out, f)
+	}
+	return out
+}
+
+func main() {
+	if len(os.Args) < 2 {
+		fmt.Fprintln(os.Stderr, "usage: vcgen check|list|dump ...")
+		os.Exit(2)
+	}
+	switch os.Args[1] {
+	case "check":
+		os.Exit(cmdCheck(os.Args[2:]))
+	case "list":
+		os.Exit(cmdList(os.Args[2:]))
+	case "dump":
+		os.Exit(cmdDump(os.Args[2:]))
+	}
+	fmt.Fprintln(os.Stderr, "unknown command")
+	os.Exit(2)
+}
+
+var patterns = []string{"./p9", "./vecnet", "./linux", "./fsimpl/..."}
+
+func loadAll(repo string) (*Program, error) {
+	specs, _ := filepath.Glob(filepath.Join(verifDir, "contracts", "*.spec"))
+	sort.Strings(specs)
+	return Load(repo, patterns, specs)
+}
+
+func cmdList(args []string) int {
+	fs := flag.NewFlagSet("list", flag.ExitOnError)
+	repo := fs.String("repo", "/repo", "")
+	fs.Parse(args)
+	p, err := loadAll(*repo)
+	if err != nil {
+		fmt.Fprintln(os.Stderr, err)
+		return 2
+	}
+	for _, k := range p.cs.Order {
+		c := p.cs.Contracts[k]
+		fmt.Printf("%s props=%v\n", k, allProps(c))
+	}
+	return 0
+}
+
+func genFor(p *Program, prop string, only string) ([]*FuncResult, []string) {
+	var out []*FuncResult
+	var problems []string
+	for _, key := range p.cs.Order {
+		k := p.cs.Contracts[key]
+		if only != "" && !strings.Contains(key, only) {
+			continue
+		}
+		if k.Kind == "lemma" {
+			ok := false
+			for _, cl := range k.Lemmas {
+				if prop == "" || hasProp(cl.Props, prop) {
+					ok = true
+				}
+			}
+			if ok {
+				out = append(out, VerifyLemma(p, key, k))
+			}
+			continue
+		}
+		if k.Kind != "func" || k.Abstract {
+			continue
+		}
+		if prop != "" && !hasProp(allProps(k), prop) {
+			continue
+		}
+		fn := p.funcs[k.Pkg+"."+k.Name]
+		if fn == nil {
+			problems = append(problems, fmt.Sprintf("contract %s: function not found in /repo (renamed or removed)", key))
+			continue
+		}
+		fr := VerifyFunc(p, key, fn, k)
+		out = append(out, fr)
+	}
+	for _, cg := range p.cs.ConstGlobals {
+		if (prop == "" || hasProp(cg.Props, prop)) && (only == "" || strings.Contains("constglobal:"+cg.Name, only)) {
+			out = append(out, ConstGlobalResult(p, cg))
+		}
+	}
+	return out, problems
+}
+
+func cmdDump(args []string) int {
+	fs := flag.NewFlagSet("dump", flag.ExitOnError)
+	repo := fs.String("repo", "/repo", "")
+	fn := fs.String("func", "", "substring of contract key")
+	ob := fs.String("ob", "", "substring of obligation name")
+	fs.Parse(args)
+	p, err := loadAll(*repo)
+	if err != nil {
+		fmt.Fprintln(os.Stderr, err)
+		return 2
+	}
+	frs, probs := genFor(p, "", *fn)
+	for _, pr := range probs {
+		fmt.Fprintln(os.Stderr, pr)
+	}
+	for _, fr := range frs {
+		for _, u := range fr.Unsupported {
+			fmt.Fprintf(os.Stderr, "UNSUPPORTED %s: %s\n", fr.Key, u)
+		}
+		for _, o := range fr.Obls {
+			if *ob == "" {
+				fmt.Printf("%s/%s %v\n", fr.Key, o.Name, o.Props)
+				continue
+			}
+			if strings.Contains(o.Name, *ob) {
+				fmt.Printf("; %s/%s %v\n", fr.Key, o.Name, o.Props)
+				fmt.Print(fr.Ctx.Query(o, true))
+			}
+		}
+	}
+	return 0
+}
+
+func cmdCheck(args []string) int {
+	fs := flag.NewFlagSet("check", flag.ExitOnError)
+	repo := fs.String("repo", "/repo", "")
+	prop := fs.String("prop", "", "property id")
+	tier := fs.String("tier", "quick", "quick|thorough")
+	only := fs.String("only", "", "restrict to contracts containing this substring (debugging; no evidence written)")
+	verbose := fs.Bool("v", false, "")
+	nocache := fs.Bool("nocache", false, "")
+	workers := fs.Int("j", 8, "parallel obligations")
+	fs.Parse(args)
+	if *prop == "" {
+		fmt.Fprintln(os.Stderr, "need -prop")
+		return 2
+	}
+	if *nocache || *tier == "thorough" {
+		useCache = false
+	}
+	start := time.Now()
+	seed := 0
+	if s := os.Getenv("VERIF_SEED"); s != "" {
+		seed, _ = strconv.Atoi(s)
+	}
+	timeout := 10 * time.Second
+	if *tier == "thorough" {
+		timeout = 60 * time.Second
+	}
+	p, err := loadAll(*repo)
+	if err != nil {
+		fmt.Fprintln(os.Stderr, "BROKEN: load:", err)
+		return 2
+	}
+	loadS := time.Since(start).Seconds()
+	frs, problems := genFor(p, *prop, *only)
+	scratch := filepath.Join(verifDir, ".cache", "scratch")
+	os.MkdirAll(scratch, 0o755)
+
+	var work []*oblResult
+	unsupportedFuncs := map[string][]string{}
+	for _, fr := range frs {
+		if len(fr.Unsupported) > 0 {
+			unsupportedFuncs[fr.Key] = fr.Unsupported
+		}
+		for _, o := range fr.Obls {
+			if !hasProp(o.Props, *prop) {
+				continue
+			}
+			work = append(work, &oblResult{Func: fr.Key, O: o, Ctx: fr.Ctx, Full: strings.TrimPrefix(fr.Key, "func:") + "/" + o.Name})
+		}
+	}
+	var wg sync.WaitGroup
+	sem := make(chan struct{}, *workers)
+	for _, w := range work {
+		w := w
+		wg.Add(1)
+		sem <- struct{}{}
+		go func() {
+			defer wg.Done()
+			defer func() { <-sem }()
+			to := timeout
+			if w.O.Cover {
+				to = 5 * time.Second
+			}
+			w.R = Solve(w.Ctx.Query(w.O, false), to, scratch)
+		}()
+	}
+	wg.Wait()
+
+	findings := loadFindings(filepath.Join(verifDir, "known_findings.txt"))
+	baseline := loadBaseline(filepath.Join(verifDir, "baseline", *prop+".obligations"))
+	known := map[string]finding{}
+	for _, f := range findings {
+		if f.Prop == *prop && !f.Fixed {
+			known[f.Obligation] = f
+		}
+	}
+
+	nObl, nDis, nCover, nCoverOK := 0, 0, 0, 0
+	byBackend := map[string]int{}
+	solverTime := 0.0
+	cacheHits := 0
+	var violations, undecided, knownHit []string
+	var samples []map[string]interface{}
+	assumptions := map[string]bool{}
+	funcs := map[string]bool{}
+	seen := map[string]bool{}
+	exit := 0
+	os.MkdirAll(filepath.Join(verifDir, "replays"), 0o755)
+	for _, w := range work {
+		funcs[w.Func] = true
+		for a := range w.Ctx.assumptions {
+			assumptions[a] = true
+		}
+		seen[w.Full] = true
+		solverTime += w.R.Seconds
+		if w.R.Cached {
+			cacheHits++
+		}
+		tainted := len(unsupportedFuncs[w.Func]) > 0
+		if w.O.Cover {
+			nCover++
+			if w.R.Answer == "unsat" {
+				// vacuous: precondition contradictory or exit unreachable
+				violations = append(violations, w.Full)
+				fmt.Printf("VACUOUS %s: requires/exit not satisfiable\n", w.Full)
+				exit = 2
+			} else {
+				nCoverOK++
+			}
+			continue
+		}
+		if _, isKnown := known[w.Full]; isKnown {
+			if w.R.Answer == "unsat" && !tainted {
+				fmt.Printf("STALE-FINDING %s now discharges\n", w.Full)
+			} else {
+				f := known[w.Full]
+				fmt.Printf("KNOWN-FINDING: property=%s %s [%s]\n", *prop, f.What, w.Full)
+				knownHit = append(knownHit, w.Full)
+			}
+			continue
+		}
+		nObl++
+		ok := w.R.Answer == "unsat" && !tainted
+		if ok {
+			nDis++
+			byBackend[w.R.Solver]++
+			if len(samples) < 4 {
+				samples = append(samples, map[string]interface{}{"obligation": w.Full, "clause": w.O.Clause, "kind": w.O.Kind, "answer": w.R.Answer, "solver": w.R.Solver, "seconds": w.R.Seconds, "smt_bytes": len(w.Ctx.Query(w.O, false))})
+			}
+			continue
+		}
+		if *verbose || true {
+			fmt.Printf("NOT-DISCHARGED %s: %s (%s) %s\n", w.Full, w.R.Answer, w.R.Solver, w.O.Clause)
+		}
+		inBaseline := baseline == nil || baseline[w.Full]
+		if tainted && w.R.Answer != "sat" {
+			undecided = append(undecided, w.Full+" (function uses unsupported construct)")
+			continue
+		}
+		if !inBaseline && w.R.Answer != "sat" {
+			undecided = append(undecided, w.Full+" ("+w.R.Answer+")")
+			continue
+		}
+		// violation
+		replay := filepath.Join(verifDir, "replays", *prop+"-"+sanitizeFile(w.Full)+".json")
+		rep := map[string]interface{}{"property": *prop, "obligation": w.Full, "clause": w.O.Clause, "where": w.O.Where, "answer": w.R.Answer, "solver": w.R.Solver, "solver_output": truncate(w.R.Output, 4000)}
+		suffix := " no-failing-input-found"
+		if w.R.Answer == "sat" {
+			m := Model(w.Ctx.Query(w.O, true), w.R.Solver, timeout, scratch)
+			rep["model"] = truncate(m, 20000)
+			if confirmed := tryReplay(*prop, w, m, rep); confirmed {
+				suffix = ""
+			}
+		}
+		b, _ := json.MarshalIndent(rep, "", " ")
+		os.WriteFile(replay, b, 0o644)
+		fmt.Printf("VIOLATION property=%s replay=%s%s\n", *prop, replay, suffix)
+		violations = append(violations, w.Full)
+		if exit == 0 {
+			exit = 1
+		}
+	}
+	// baseline obligations that disappeared
+	var missing []string
+	for name := range baseline {
+		if !seen[name] {
+			missing = append(missing, name)
+		}
+	}
+	sort.Strings(missing)
+	for _, m := range missing {
+		undecided = append(undecided, m+" (obligation no longer generated: contract key or call site not found)")
+		fmt.Printf("UNDECIDED %s: obligation in baseline no longer generated\n", m)
+	}
+	for _, pr := range problems {
+		fmt.Printf("UNDECIDED %s\n", pr)
+		undecided = append(undecided, pr)
+	}
+	for f, us := range unsupportedFuncs {
+		for _, u := range us {
+			fmt.Printf("UNSUPPORTED %s: %s\n", f, u)
+		}
+	}
+	if nObl == 0 && len(knownHit) == 0 {
+		fmt.Println("BROKEN: no obligations generated for", *prop)
+		exit = 2
+	}
+	if *only != "" {
+		fmt.Printf("%s: %d/%d discharged (debug run, no evidence)\n", *prop, nDis, nObl)
+		return exit
+	}
+	// evidence
+	var fl []string
+	for f := range funcs {
+		fl = append(fl, strings.TrimPrefix(f, "func:"))
+	}
+	sort.Strings(fl)
+	var al []string
+	for a := range assumptions {
+		al = append(al, a)
+	}
+	al = append(al, "front end: go/packages + go/types + go/ssa (x/tools v0.29.0), GOOS=linux GOARCH=amd64, tags=verif",
+		"VC generator /verif/cmd/vcgen (own code) and its memory model (DESIGN.md 2.4)",
+		"solvers: z3 5.1.0 (z3-new), cvc5 1.0.3, z3 4.8.12")
+	sort.Strings(al)
+	if len(samples) == 0 {
+		samples = append(samples, map[string]interface{}{"note": "no discharged obligation in this run"})
+	}
+	ev := map[string]interface{}{
+		"property_id": *prop, "tier": *tier, "seed": seed, "level": "proof",
+		"coverage": map[string]interface{}{
+			"obligations": nObl, "discharged": nDis,
+			"checker_cmd":              fmt.Sprintf("bin/vcgen check -prop %s -tier %s", *prop, *tier),
+			"trusted_base":             al,
+			"functions_under_contract": fl,
+			"by_backend":               byBackend,
+			"solver_time_s":            solverTime,
+			"cache_hits":               cacheHits,
+			"covers_checked":           nCover,
+			"covers_satisfiable":       nCoverOK,
+			"undecided":                undecided,
+			"known_findings_hit":       knownHit,
+			"violations":               violations,
+			"unsupported":              unsupportedFuncs,
+			"samples":                  samples,
+			"load_s":                   loadS,
+			"contract_files":           p.files,
+		},
+		"assumptions": al,
+		"wall_s":      time.Since(start).Seconds(),
+		"violations":  len(violations),
+	}
+	os.MkdirAll(filepath.Join(verifDir, "evidence"), 0o755)
+	b, _ := json.MarshalIndent(ev, "", " ")
+	os.WriteFile(filepath.Join(verifDir, "evidence", *prop+".json"), b, 0o644)
+	fmt.Printf("%s: %d/%d obligations discharged, %d covers, %d undecided, %d known findings, %.1fs\n", *prop, nDis, nObl, nCover, len(undecided), len(knownHit), time.Since(start).Seconds())
+	if exit == 0 && nDis < nObl {
+		// undecided obligations that were never claimed do not raise an alarm
+	}
+	return exit
+}
+
+func sanitizeFile(s string) string {
+	r := strings.NewReplacer("/", "_", "*", "", "(", "", ")", "", " ", "_", "#", "-", "$", "-", ":", "-", "@", "-at-")
+	return r.Replace(s)
+}
+
+func loadBaseline(path string) map[string]bool {
+	b, err := os.ReadFile(path)
+	if err != nil {
+		return nil
+	}
+	m := map[string]bool{}
+	for _, ln := range strings.Split(string(b), "\n") {
+		if ln = strings.TrimSpace(ln); ln != "" && !strings.HasPrefix(ln, "#") {
+			m[ln] = true
+		}
+	}
+	return m
+}
+
+// tryReplay: replay drivers per contract shape live in replay.go.
+func tryReplay(prop string, w *oblResult, model string, rep map[string]interface{}) bool {
+	return replayModel(prop, w, model, rep)
 }
